@@ -172,12 +172,27 @@ type world struct {
 	db       *dutydb.MemDB
 	dl       *fakes.Deadliner
 	model    map[key]string // definite content per key (for agg: the attestation-data rendering)
+	// maybe: keys touched by a failed multi-entry store while a query was pending on them. Learning
+	// whether the entry was applied would need an Await, and every Await makes the store resolve ALL
+	// pending queries, i.e. the probe would itself wake the waiter the property is about. Such keys stay
+	// "possibly stored with one of these values" until a successful store or an answer settles them.
+	maybe map[key]map[string]bool
 	offered  map[key]map[string]bool
 	pubkeys  map[pkKey]core.PubKey
 	queries  []*query
 	nextID   int
 	toDelete []core.Duty
 	trace    []string
+}
+
+// pendingOn reports whether an unanswered, uncancelled query waits for the key.
+func (w *world) pendingOn(k key) bool {
+	for _, q := range w.queries {
+		if q.key == k && !q.cancelled && !finished(q) {
+			return true
+		}
+	}
+	return false
 }
 
 func (w *world) offer(k key, v string) {
@@ -258,6 +273,14 @@ func (w *world) answerOK(k key, val string, when string) {
 	}
 	want, ok := w.model[k]
 	if !ok {
+		if cands, mb := w.maybe[k]; mb {
+			if !cands[val] {
+				w.rt.Fatalf("%s: answer for %v is %s, which no store (failed or not) ever carried for that key", when, k, val)
+			}
+			w.model[k] = val // settled by the answer
+			delete(w.maybe, k)
+			return
+		}
 		w.rt.Fatalf("%s: answer for %v although the model holds nothing for it", when, k)
 	}
 	if k.fam == fAgg {
@@ -308,7 +331,7 @@ func (w *world) check(when string, strictPending bool) {
 func runCase(rt *rapid.T) {
 	ctx, cancel := context.WithCancel(context.Background())
 	dl := fakes.NewDeadliner(core.DutyExit, core.DutyBuilderRegistration)
-	w := &world{rt: rt, ctx: ctx, db: dutydb.NewMemDB(dl), dl: dl, model: map[key]string{}, offered: map[key]map[string]bool{}, pubkeys: map[pkKey]core.PubKey{}}
+	w := &world{rt: rt, ctx: ctx, db: dutydb.NewMemDB(dl), dl: dl, model: map[key]string{}, maybe: map[key]map[string]bool{}, offered: map[key]map[string]bool{}, pubkeys: map[pkKey]core.PubKey{}}
 	defer func() {
 		cancel()
 		for _, q := range w.queries {
@@ -457,6 +480,9 @@ func runCase(rt *rapid.T) {
 				if prev, ok := w.model[tch.k]; ok && prev != tch.val {
 					clash = true
 				}
+				if cands, mb := w.maybe[tch.k]; mb && !(len(cands) == 1 && cands[tch.val]) {
+					possible = true // clashes exactly if the earlier failed store had applied another value
+				}
 				if prev, ok := local[tch.k]; ok && prev != tch.val {
 					clash = true
 				}
@@ -531,6 +557,13 @@ func runCase(rt *rapid.T) {
 					if _, ok := w.model[tch.k]; ok {
 						continue
 					}
+					if (tch.k.fam == fCon || tch.k.fam == fPro) && (w.pendingOn(tch.k) || w.maybe[tch.k] != nil) {
+						if w.maybe[tch.k] == nil {
+							w.maybe[tch.k] = map[string]bool{}
+						}
+						w.maybe[tch.k][tch.val] = true
+						continue
+					}
 					if v, present := w.probe(tch.k); present {
 						if tch.k.fam == fAgg {
 							w.model[tch.k] = tch.val
@@ -558,6 +591,7 @@ func runCase(rt *rapid.T) {
 				for _, tch := range touches {
 					if _, ok := w.model[tch.k]; !ok {
 						w.model[tch.k] = tch.val
+						delete(w.maybe, tch.k) // a store that succeeded with this value: it is the stored one
 						if (possible || aliasAmbiguous) && f == fAtt && tch.k.a == 0 {
 							if v, present := w.probe(tch.k); present {
 								w.model[tch.k] = v
@@ -576,6 +610,11 @@ func runCase(rt *rapid.T) {
 					for k := range w.model {
 						if k.slot == d.Slot && dutyFam(d.Type) == k.fam {
 							delete(w.model, k)
+						}
+					}
+					for k := range w.maybe {
+						if k.slot == d.Slot && dutyFam(d.Type) == k.fam {
+							delete(w.maybe, k)
 						}
 					}
 					if d.Type == core.DutyAttester {
